@@ -1,12 +1,12 @@
 ---------------------------- MODULE InterchangeSim ----------------------------
 (* Case generation for the interchange replay: every finished import is printed as JSON and the model starts over. *)
 EXTENDS Interchange, Json
-Flush == /\ phase \in {"imported", "rejected"}
+Flush == /\ phase \in {"imported", "rejected", "failed"}
          /\ PrintT(<<"CASE", ToJson([before |-> before, file |-> file, meta |-> meta, phase |-> phase, after |-> db])>>)
          /\ db' \in {d \in [s : {-1} \cup V, t : {-1} \cup V, ps : {-1} \cup V] : (d.s = -1) = (d.t = -1)}
          /\ before' = db'
          /\ file' = <<>> /\ phase' = "build"
-         /\ meta' \in {"ok", "ok", "badversion", "badroot", "badnumber"}
+         /\ meta' \in {"ok", "badversion", "badroot", "badnumber", "unstorable"}
 SimNext == Next \/ Flush
 SimSpec == Init /\ [][SimNext]_vars
 =============================================================================
